@@ -31,7 +31,7 @@ RULE = ('random histories of stream openings, END_STREAM in both directions, res
 MINIMA = {'local_opening_judged': 3000, 'local_opening_at_limit_refused': 300, 'local_opening_just_below_limit_accepted': 300,
           'peer_opening_judged': 3000, 'peer_opening_over_limit_judged': 150, 'peer_opening_just_below_limit_accepted': 300,
           'counters_compared': 20000, 'reserved_streams_present_at_judgement': 300,
-          'local_limit_changes_overlapping': 300, 'library_initiated_resets': 200, 'garbage_opening_attempts': 300, 'stale_id_openings_judged': 50}
+          'local_limit_changes_overlapping': 300, 'library_initiated_resets': 200, 'garbage_opening_attempts': 300, 'stale_id_openings_judged': 50, 'refused_activation_attempts': 100}
 EXHAUSTIVE = {}
 
 LIMITS = [0, 1, 1, 2, 2, 3, 5, 100]
@@ -393,6 +393,17 @@ def run_case(idx, rng, tier, rep):
                 if judge_peer_opening(res, 'HEADERS-on-promised-stream', sid):
                     sh.st[sid] = ['P', 'closed' if es else 'hc_local', False, True]
             else:
+                if rng.random() < 0.15:
+                    # a response the library refuses for its header list: nothing is sent, the stream stays reserved and uncounted
+                    steps.append(('E-activate-refused', sid))
+                    r0 = t.call('send_headers', sid, RESP + [(b'te', b'gzip')], end_stream=es)
+                    rep.count('refused_activation_attempts')
+                    if r0.exc is None or r0.frames:
+                        fail('C10:invalid-response-accepted-or-emitted', 'send_headers with te: gzip: exc %r frames %s' % (r0.exc, [f.brief() for f in r0.frames]))
+                        break
+                    compare(force=True)
+                    if not st['alive']:
+                        break
                 steps.append(('E-activate', sid, es))
                 r = t.call('send_headers', sid, RESP, end_stream=es)
                 if judge_local_opening(r, 'send_headers-on-promised-stream', sid,
